@@ -197,6 +197,26 @@ def fail_sym(ctx):
     pf = ci.methods.get('on_smp_pairing_failed_command')
     if pf is not None:
         R.check('self.on_pairing_failure(' in norm(pf), rule, f'{S}.on_smp_pairing_failed_command', 'a failure from the peer fails the local session', 'Pairing Failed from the peer does not fail the local session', p.loc(pf))
+    # the Pairing Request is handled in a task of its own: what raises there (an IO capability outside the table, a failing
+    # delegate) must fail the pairing on both sides as well, nobody awaits that task
+    rq = ci.methods.get('on_smp_pairing_request_command')
+    if rq is None:
+        R.bad(rule, f'{S}.on_smp_pairing_request_command', 'anchor missing')
+    else:
+        spawned = [c for c in calls_in(rq) if call_attr(c) == 'cancel_on_disconnection' and c.args and isinstance(c.args[0], ast.Call)]
+        okr = bool(spawned)
+        for c in spawned:
+            target = dotted(c.args[0].func) or ''
+            wrapper = next((f for f in ast.walk(rq) if isinstance(f, FUNC) and f is not rq and f.name == target), None)
+            cont = False
+            if wrapper is not None:
+                for t in [x for x in ast.walk(wrapper) if isinstance(x, ast.Try)]:
+                    awaited = any(isinstance(x, ast.Await) and 'on_smp_pairing_request_command_async' in norm(x) for s_ in t.body for x in ast.walk(s_))
+                    handled = any((h.type is None or text(h.type).split('.')[-1] in ('Exception', 'BaseException')) and any(dotted(x.func) == 'self.send_pairing_failed' for x in ast.walk(h) if isinstance(x, ast.Call)) for h in t.handlers)
+                    cont = cont or (awaited and handled)
+            okr = okr and cont
+        R.check(okr, rule, f'{S}.on_smp_pairing_request_command | task exception', 'the request-handling task is wrapped: an exception there sends Pairing Failed and fails the local session',
+                'an exception in the task that handles the Pairing Request (e.g. an IO capability outside the method table) is lost with the task: no Pairing Failed is sent and the initiator waits for a response that never comes', p.loc(rq))
     oc = ci.methods.get('on_smp_command')
     if oc is not None:
         hs = [h for h in ast.walk(oc) if isinstance(h, ast.ExceptHandler)]
@@ -716,6 +736,21 @@ def session_lifecycle(ctx, rule='C13.session-lifecycle'):
         paths.run(mp, Ord(), False)
         R.check(not late, rule, 'bumble.smp.Manager.on_smp_pdu | old session ended before the new one is registered', 'no session is ended after self.sessions[handle] has been given the new session',
                 f'a session is ended (line {sorted(set(late))}) after the new session was stored in self.sessions: ending removes the entry by connection handle, i.e. the new session; the rest of the pairing finds no session and fails', p.loc(mp))
+    # a session that failed supplies no key: the long-term-key lookup falls through to the key store (the keys of an earlier
+    # bonding stay valid after a failed re-pairing)
+    gl = p.find(f'{S}.get_long_term_key')
+    pf_ = p.find(f'{S}.on_pairing_failure')
+    if gl is None or pf_ is None:
+        R.bad(rule, f'{S}.get_long_term_key / on_pairing_failure', 'anchor missing')
+    else:
+        flags = {dotted(n.targets[0]) for n in walk_local(pf_) if isinstance(n, ast.Assign) and isinstance(n.value, ast.Constant) and n.value.value is True} - {'self.completed'}
+        first_ret = next((i for i, s_ in enumerate(gl.body) if any(isinstance(x, ast.Return) for x in ast.walk(s_))), None)
+        ok = False
+        if first_ret is not None:
+            s0 = gl.body[first_ret]
+            ok = isinstance(s0, ast.If) and norm(s0.test) in flags and len(s0.body) >= 1 and isinstance(s0.body[-1], ast.Return) and (s0.body[-1].value is None or norm(s0.body[-1].value) == 'None')
+        R.check(ok, rule, f'{S}.get_long_term_key | failed session', f'returns None first when the failure flag ({sorted(flags)}) is set',
+                'a session that ended in failure still answers the long-term-key request with its own (never agreed) key: after a failed re-pairing the peripheral answers a key the central does not have, instead of the bonded one from the key store', p.loc(gl))
     sc = p.find(f'{S}.on_smp_pairing_random_command_secure_connections')
     if sc is not None:
         seen2 = []
